@@ -87,6 +87,25 @@ def compare(case, impl, model, stats=None, proj=None):
                     out.append("mu at [%d][%d]: impl %s / model %s" % (i, j, fh(pi[0]), fh(pm[0])))
                 if want("sigma") and not close(pi[1], pm[1], 0.0, stats, rel=srel):
                     out.append("sigma at [%d][%d]: impl %s / model %s" % (i, j, fh(pi[1]), fh(pm[1])))
+        if proj is not None and "slots" in proj:
+            # C02 "no player is moved to another team or slot", on the VALUES: a result slot whose (mu, sigma) is not the
+            # posterior the model assigns to the player passed there, but IS the (different) posterior it assigns to the
+            # player passed in another slot.  (A changed formula does not reproduce another player's posterior.)
+            def near(p, q, allow=0.0):
+                sc_ = max(abs(fh(q[0])), abs(fh(q[1])), abs(fh(p[0])))
+                return (close(p[0], q[0], sc_, None) or abs(fh(p[0]) - fh(q[0])) <= allow + REL * sc_) and close(p[1], q[1], 0.0, None, rel=srel)
+            pos = [(i, j) for i, t in enumerate(mr) for j in range(len(t))]
+            for (i, j) in pos:
+                # (the side of vt's jump at x = 0 may differ between two correct evaluations of a Thurstone-Mosteller tie: a
+                # value within that allowance of the slot's own posterior is the slot's own posterior)
+                al = _tm_tie_mu_allow(case, i, j)
+                if near(ir[i][j], mr[i][j], al):
+                    continue
+                src = [(k, l) for (k, l) in pos if (k, l) != (i, j) and near(ir[i][j], mr[k][l]) and not near(mr[k][l], mr[i][j], al)]
+                if src:
+                    out.append("moved: result[%d][%d] holds (%s, %s), the posterior of the player passed at [%d][%d]; its own is (%s, %s)" % (
+                        i, j, fh(ir[i][j][0]), fh(ir[i][j][1]), src[0][0], src[0][1], fh(mr[i][j][0]), fh(mr[i][j][1])))
+                    break
         if want("objects"):
             # set of fields written per object, and final values of the passed objects
             fi = sorted({(m[0], m[1], m[2]) for m in impl["mut"]})
